@@ -40,7 +40,7 @@ auto match_member_is(M m, const char* name, C&& c)
 {
   return trompeloeil::make_matcher<trompeloeil::wildcard>(
       impl::member_is_matcher<M>{m},
-      [name](std::ostream& os, const C& compare) {
+      [name](std::ostream& os, const typename std::decay<C>::type& compare) {
         os << ' ' << name << compare;
       },
       std::forward<C>(c)
